@@ -12,6 +12,7 @@ import (
 	"encoding/hex"
 	"encoding/json"
 	"fmt"
+	"github.com/goreleaser/nfpm/v2/files"
 	"math/rand"
 	"os"
 	"path/filepath"
@@ -20,6 +21,7 @@ import (
 	"sort"
 	"strings"
 	"sync"
+	"time"
 
 	"github.com/goreleaser/nfpm/v2"
 )
@@ -192,6 +194,15 @@ func isoShapes(scratch string, rng *rand.Rand, n int) []*isoShape {
 	}, "")
 	mk("arch-translation", func(c *Cfg, n *[]Node) { c.Arch = "arm6"; c.Release = "" }, "")
 	mk("other-platform", func(c *Cfg, n *[]Node) { c.Platform, c.Arch = "freebsd", "arm64" }, "")
+	// the same name in several relation lists (a package that provides, conflicts with and replaces its predecessor; a
+	// dependency that is also a pre-dependency): whatever a packager dedupes, it dedupes in its own copy
+	mk("relations-overlap", func(c *Cfg, n *[]Node) {
+		c.Depends = []string{"bash", "adduser", "logrotate", "libold"}
+		c.DebPredepends, c.IpkPredepends = []string{"adduser"}, []string{"bash"}
+		c.Provides, c.Conflicts, c.Replaces = []string{"libold", "isopkg-compat"}, []string{"libold", "zz-other"}, []string{"libold"}
+		c.Recommends, c.Suggests = []string{"logrotate", "cron"}, []string{"cron", "bash"}
+		c.DebBreaks = []string{"libold (<< 2)"}
+	}, "")
 	// a payload file above every buffer / block threshold a packager may special-case (1 MiB and a bit)
 	mk("large-file", func(c *Cfg, n *[]Node) {
 		b := bytes.Repeat([]byte("0123456789abcdef0123456789ABCDEF0123456789abcdef0123456789ABCDE\n"), (1<<20)/64+3)
@@ -335,7 +346,7 @@ func permutations(xs []string) [][]string {
 func famIso(tr *Trace, scratch string, seed int64, tier string, workers int, behaviours string) M {
 	os.Unsetenv("SOURCE_DATE_EPOCH")
 	rng := rand.New(rand.NewSource(seed + 99))
-	nshapes := 17
+	nshapes := 18
 	maxLen := 2
 	if tier == "thorough" {
 		nshapes, maxLen = 40, 3
@@ -459,7 +470,50 @@ func famIso(tr *Trace, scratch string, seed int64, tier string, workers int, beh
 			tr.Index(j.id, M{"yaml": strings.ReplaceAll(j.s.yaml, j.s.root, "$ROOT")})
 		}
 	})
-	return M{"cases": len(jobs), "shapes": len(shapes), "histories_per_shape": len(hist), "max_len": maxLen, "tlc_generated_histories": nTLC}
+	// An Info a library caller built by hand (never passed through WithDefaults or a parser): asking for the conventional
+	// file name first must not change the package built from it afterwards.
+	nHand := 0
+	{
+		root := filepath.Join(scratch, "iso-handbuilt")
+		Materialise(root, smallTree())
+		mk := func(variant int) *nfpm.Info {
+			i := &nfpm.Info{Name: "handbuilt", Arch: "amd64", Platform: "linux", Version: "v1.2.3-beta1+git5", Maintainer: "M <m@example.org>", Description: "d"}
+			switch variant {
+			case 1:
+				i.Arch, i.Version, i.Release = "arm7", "2.0.0", "3"
+			case 2:
+				i.Arch, i.Version, i.Epoch, i.Prerelease = "386", "1.0", "2", "rc1"
+			}
+			i.MTime = time.Unix(1600000000, 0).UTC()
+			i.RPM.BuildHost = "buildhost.example"
+			i.Contents = files.Contents{{Source: root + "/src/bin", Destination: "/usr/bin/tool"}, {Source: root + "/src/app.conf", Destination: "/etc/handbuilt/app.conf", Type: "config"}}
+			return i
+		}
+		id := len(jobs) + 500000
+		for variant := 0; variant < 3; variant++ {
+			for _, f := range allFormats {
+				pk, _ := nfpm.Get(f)
+				var a, b bytes.Buffer
+				e1 := pk.Package(mk(variant), &a)
+				named := mk(variant)
+				name := pk.ConventionalFileName(named)
+				e2 := pk.Package(named, &b)
+				fresh, h := hashBytes(a.Bytes()), hashBytes(b.Bytes())
+				if e1 != nil {
+					fresh = "err"
+				}
+				if e2 != nil {
+					h = "err"
+				}
+				id++
+				nHand++
+				tr.Emit(id, []M{{"ev": "case", "id": id, "fam": "iso", "shape": "handbuilt-info"},
+					{"ev": "op", "k": 1, "op": "named", "fmt": f, "hash": h, "fresh": fresh, "fname": safeStr(name), "err": "", "config_changed": []any{}, "nchanged": 0, "get_changed": []any{}},
+					{"ev": "endcase"}})
+			}
+		}
+	}
+	return M{"cases": len(jobs), "shapes": len(shapes), "histories_per_shape": len(hist), "max_len": maxLen, "tlc_generated_histories": nTLC, "handbuilt_infos": nHand}
 }
 
 // ---------------------------------------------------------------- concurrency (run under -race)
@@ -467,7 +521,7 @@ func famIso(tr *Trace, scratch string, seed int64, tier string, workers int, beh
 func famConc(tr *Trace, scratch string, seed int64, tier string) M {
 	os.Unsetenv("SOURCE_DATE_EPOCH")
 	rng := rand.New(rand.NewSource(seed + 7))
-	nshapes, iters := 16, 12
+	nshapes, iters := 17, 12
 	if tier == "thorough" {
 		nshapes, iters = 20, 40
 	}
